@@ -180,7 +180,7 @@ theorem inv_dispatch {C : Type} {K : Crypto C} {sw rw : Nat} {σ : Net C} (h : I
       · exact h1
       · split
         · simp only [Pn.Rcvd.largest, List.length_set] at h1 ⊢; exact h1
-        · simp only [Pn.Rcvd.largest, List.length_append, List.length_replicate, List.length_cons, List.length_nil] at h1 ⊢
+        · simp only [Pn.Rcvd.largest, List.length_append, List.length_replicate, List.length_cons, List.length_nil] at *
           omega
     · rw [upd_other _ _ _ _ hd]; exact h.rcvd_le d'
   · intro d' q hq
@@ -307,7 +307,9 @@ theorem inv_step {C : Type} {K : Crypto C} {sw rw : Nat} (ord : Order) {σ : Net
     · intro d'
       have := h.rcvd_le d'
       simp only [upd]
-      split <;> omega
+      split
+      · rename_i hc; subst hc; omega
+      · exact this
     · intro d' p hp
       have := h.deliv_sent d' p hp
       simp only [upd]
@@ -413,5 +415,56 @@ theorem connErr_step_before {C : Type} (K : Crypto C) (σ : Net C) (op : Op C) (
       · split
         · simp only [dispatch, connErr_handles]; exact h
         · exact h
+
+theorem connErr_run_after {C : Type} (K : Crypto C) (ops : List (Op C)) (σ : Net C) (h : ∀ d, σ.connErr d = none) :
+    ∀ d, (run K .afterAuth σ ops).connErr d = none := by
+  induction ops generalizing σ with
+  | nil => exact h
+  | cons op rest ih => simp only [run, List.foldl_cons]; exact ih _ (connErr_step_after K σ op h)
+
+theorem connErr_run_before {C : Type} (K : Crypto C) (ops : List (Op C)) (σ : Net C) (hc : ∀ op ∈ ops, opCleanBits K op)
+    (h : ∀ d, σ.connErr d = none) : ∀ d, (run K .beforeAuth σ ops).connErr d = none := by
+  induction ops generalizing σ with
+  | nil => exact h
+  | cons op rest ih =>
+    simp only [run, List.foldl_cons]
+    exact ih _ (fun o ho => hc o (by simp [ho])) (connErr_step_before K σ op (hc op (by simp)) h)
+
+/-- a datagram that does not authenticate changes nothing at all (unless the reserved-bit check comes first) -/
+theorem recv_unauth_noop {C : Type} (K : Crypto C) (ord : Order) (σ : Net C) (d : Dir) (c : C)
+    (ho : K.openP d c = none) (hr : ord = .afterAuth ∨ K.reserved d c = false) : recvStep K ord σ d c = σ := by
+  unfold recvStep
+  split
+  · rfl
+  · split
+    · rename_i hc
+      rcases hr with hr | hr
+      · rw [hr] at hc; exact absurd hc.1 (by decide)
+      · rw [hr] at hc; exact absurd hc.2 (by decide)
+    · simp only [ho]
+
+/-- a packet that was already dispatched is dropped when it arrives again -/
+theorem recv_replay_noop {C : Type} {K : Crypto C} {sw rw : Nat} (ord : Order) {σ : Net C} (h : Inv K sw rw σ) (d : Dir)
+    (p : Packet) (hp : p ∈ σ.delivered d) : recvStep K ord σ d (K.sealP d p) = σ := by
+  have hg := h.deliv_gone d p hp
+  have hf : fresh (σ.rcvd d) p.pn = false := by
+    unfold fresh
+    rcases hg with hg | hg
+    · have : ¬ (σ.rcvd d).offset ≤ p.pn := by omega
+      simp [this]
+    · simp [hg]
+  unfold recvStep
+  split
+  · rfl
+  · simp only [K.seal_reserved, K.open_seal, hf, Bool.false_eq_true, and_false, if_false]
+
+/-- progress of the packet layer: a packet just sealed, delivered unmodified, is accepted and dispatched -/
+theorem fresh_next {C : Type} {K : Crypto C} {sw rw : Nat} {σ : Net C} (h : Inv K sw rw σ) (d : Dir) :
+    fresh (σ.rcvd d) (σ.nextPn d) = true := by
+  have h1 := h.rcvd_le d
+  unfold fresh Pn.Rcvd.seen
+  have : ¬ (σ.nextPn d < (σ.rcvd d).largest) := by omega
+  have h2 : (σ.rcvd d).offset ≤ σ.nextPn d := by unfold Pn.Rcvd.largest at h1; omega
+  simp [this, h2]
 
 end GmQuic.Net
